@@ -178,7 +178,7 @@ class NodeAssignDestructuring:
         if values.isList():
             values = values.value
         elif values.isSet():
-            values = values.value.sortedValues()
+            values = values.getSortedItems()
         else:
             raise CklRuntimeError(
                 ValueString("ERROR"),
@@ -790,7 +790,7 @@ class NodeFor:
                         if value.isList():
                             vals = value.value
                         elif value.isSet():
-                            vals = value.value.sortedValues()
+                            vals = value.getSortedItems()
                         for i in range(len(self.identifiers)):
                             environment.put(self.identifiers[i], vals[i])
 
@@ -894,7 +894,7 @@ class NodeFor:
                     if val.isList():
                         vals = val.value
                     elif val.isSet():
-                        vals = val.value.sortedValues()
+                        vals = val.getSortedItems()
                     for i in range(len(self.identifiers)):
                         environment.put(self.identifiers[i], vals[i])
                 result = self.block.evaluate(environment)
@@ -933,7 +933,7 @@ class NodeFor:
                     if val.isList():
                         vals = val.value
                     elif val.isSet():
-                        vals = val.value.sortedValues()
+                        vals = val.getSortedItems()
                     for i in range(len(self.identifiers)):
                         environment.put(self.identifiers[i], vals[i])
                 result = self.block.evaluate(environment)
